@@ -76,7 +76,7 @@ class Method(Variable):  # i.e. TypeBound procedure
             hover_str = f"{self.get_desc()} {sub_sig}"
         else:
             link_msg, link_docs = self.link_obj.get_hover(
-                long=True, drop_arg=self.drop_arg
+                long=long, drop_arg=self.drop_arg
             )
             # Replace the name of the linked object with the name of this object
             hover_str = link_msg.replace(self.link_obj.name, self.name, 1)
